@@ -152,7 +152,7 @@ func (c *Ctl) hit(ctx context.Context, kind, q string, args []driver.NamedValue)
 	c.mu.Lock()
 	defer c.mu.Unlock()
 	if w := os.Getenv("VERIF_SQLGREP"); w != "" && strings.Contains(q, w) { // debugging aid
-		fmt.Fprintln(os.Stderr, "SQL:", q)
+		fmt.Fprintln(os.Stderr, "SQL:", time.Now().UnixNano()/1000000%100000000, labelOf(ctx), q)
 	}
 	var st *Stmt
 	if c.logging {
